@@ -4,6 +4,12 @@ import json, os
 HERE = os.path.dirname(os.path.abspath(__file__))
 
 CHECKS = {
+ "C06": ("deterministic simulation of the fibre scheduler under a discrete-event main loop with interrupt-context calls injected between any two atomic operations or library data accesses (nested to depth 2) and from free-running sender contexts; obligation, exactly-once, ordering and queue-health oracles after a fault-free run to quiescence",
+         "Seeded search over placements of up to 24 interrupt-context calls (fibre_run_atomic, fibre_eventq_claim/send, including back-to-back bursts that fill the 8-deep wake-up queue) inside fibre_scheduler_next, fibre_run, fibre_kill, the drain loop, fibre bodies and other handlers, and over thread schedules of 1-3 senders; every accepted wake-up becomes an obligation that a later dispatch must discharge unless a kill withdraws or overlaps it, dispatches never exceed reasons, accepted events arrive exactly once, intact and in real-time order, the system must quiesce within 64 passes and the queues must then dispatch a known run order exactly.",
+         "Preemption points are atomic operations, library accesses to its own data, accesses to event storage and explicit points in bodies and the main loop; sequentially consistent interleavings; the POSIX main loop is replaced by a discrete-event loop of the same shape."),
+ "C07": ("happens-before (vector-clock) race detection over seeded thread schedules of the real code, with edges derived from the memory-order argument of every atomic operation actually executed (own runtime behind clang's TSan instrumentation)",
+         "The thread-mode runs of the ring, message-queue and fibre wake-up/event harnesses are executed with a vector-clock race detector: release stores replace, relaxed stores clear and release RMWs join a per-location release clock; acquire loads/RMWs join it into the reader; fences and release sequences are modelled; every plain access by library code to shared regions and to its own data, and every harness payload access, is checked against conflicting accesses of other contexts. Weakened orders (relaxed publish/observe/release/claim) are flagged on sequentially consistent schedules; correct acquire/release weakening is not.",
+         "Interleavings are sequentially consistent, so non-SC behaviour of race-free but weakened code is out of reach (DESIGN.md section 7); long real-thread runs under the real ThreadSanitizer are observation of uncontrolled executions and are deliberately not part of this technique."),
  "C04": ("deterministic simulation: librfn compiled with TSan instrumentation against an own runtime; sender/receiver contexts preempted at every atomic operation and payload access under seeded random/PCT/k-preemption/stall schedules and nested interrupts; ownership automaton, claim-order and interval oracles",
          "Seeded search over interleavings at atomic-operation granularity of 1-4 senders (claim, write, send) and one receiver (receive, check, release) for queue depths 1-32 with the queue full most of the time, both as free-running threads under four scheduling strategies and as run-to-completion interrupt handlers nested to depth 2; an ownership automaton per buffer, exactly-once/intact/claim-order checks, an interval oracle for refusals (counting claims in progress) and conservation at quiescence decide every run.",
          "Interleavings are sequentially consistent (C07 covers the memory-order argument); preemption granularity is atomic operations, accesses to shared regions and explicit points between API calls; sampling, not enumeration."),
@@ -18,7 +24,7 @@ CHECKS = {
          "Scope of the property is enforced by the generator: all pending due times within 2^31 ticks after the current time."),
  "C03": ("seeded scheduler histories checking every returned wake-up time against the reference scheduler state; discrete-event flush that sleeps exactly as told",
          "Every value returned by fibre_scheduler_next in the C01/C02-style histories (both swarms) is compared with the reference: t if anything is runnable on return (run queue, the fibre that just yielded, an accepted undrained atomic request), else the earliest pending due time, else t+FIBRE_UNBOUNDED_SLEEP; the closing flush sleeps exactly until the returned time and every owed dispatch must still happen.",
-         "This registration covers the history part (a); interrupts landing inside fibre_scheduler_next are exercised by the sim-flavour harness when registered for this property (see DESIGN.md C03 b)."),
+         "Part (a) is sequential histories (h_fibre); part (b) (h_irq, sim flavour) places interrupts inside fibre_scheduler_next and, whenever the scheduler says sleep, re-runs a pass at the same instant with interrupts held off: a dispatch there is excused only by a request published after the scheduler's last look at the wake-up queue, and no known pending timeout may lie before the returned time."),
  "C10": ("seeded (geometry, history) pairs against a bounded-FIFO reference model; both construction routes in lock step; ASan exact-size storage",
          "Seeded exploration over queue depth 1..32 (weight on 1, 2, 31, 32), message size 1..40, slack bytes and construction route (messageq_init, MESSAGEQ_VAR_INIT with run-time values, or both in lock step) with histories of claim, reordered send, receive, delayed release and empty; every pointer/NULL result is compared with a cyclic-counter/FIFO model and slack bytes are checked after every operation.",
          "Sequential histories only (concurrency is C04); releases follow receives and sends name claimed buffers (the API's rules)."),
